@@ -9,7 +9,17 @@ static void verif_noreturn(int kind) {
   VERIF_ASSUME(0);
 }
 uint8_t *_Znwm(uint64_t n) { uint8_t *p = malloc(n); VERIF_ASSUME(p != 0); return p; }
+#ifdef VERIF_NEW_ARRAY_MAX
+/* operator new[] with a size that is symbolic at symex time would create a symbolic-size object (solver blow-up:
+ * measured 14-25 GB on a 4-byte header). Opt-in per harness: every new[] gets VERIF_NEW_ARRAY_MAX bytes; a larger
+ * request is a reported bound violation. Writes past the requested size but inside the slack are not detected. */
+uint8_t *_Znam(uint64_t n) {
+  if (n > VERIF_NEW_ARRAY_MAX) { VERIF_CHECK(0, "bound: operator new[] request larger than VERIF_NEW_ARRAY_MAX"); VERIF_ASSUME(0); }
+  uint8_t *p = malloc(VERIF_NEW_ARRAY_MAX); VERIF_ASSUME(p != 0); return p;
+}
+#else
 uint8_t *_Znam(uint64_t n) { uint8_t *p = malloc(n); VERIF_ASSUME(p != 0); return p; }
+#endif
 uint8_t *_ZnwmRKSt9nothrow_t(uint64_t n, void *nt) { uint8_t *p = malloc(n); VERIF_ASSUME(p != 0); return p; }
 uint8_t *_ZnamRKSt9nothrow_t(uint64_t n, void *nt) { uint8_t *p = malloc(n); VERIF_ASSUME(p != 0); return p; }
 #ifndef VERIF_CUSTOM_DELETE
@@ -38,3 +48,4 @@ void _ZSt24__throw_invalid_argumentPKc(uint8_t *m) { verif_noreturn(10); }
 void _ZSt21__throw_bad_exceptionv(void) { verif_noreturn(11); }
 void _ZSt21__throw_runtime_errorPKc(uint8_t *m) { verif_noreturn(12); }
 void __assert_fail(uint8_t *a, uint8_t *f, uint32_t l, uint8_t *fn) { verif_noreturn(13); }
+uint32_t __cxa_thread_atexit(void *f, uint8_t *a, uint8_t *d) { return 0; }   /* thread_local destructors never run inside a query */
